@@ -19,7 +19,7 @@ COQ_IMPORTS = 'From VRP Require Import Base.Tac Model.Core Spec.Valid Model.Home
 MODEL_TARGETS = ['theories/Spec/Valid.vo', 'theories/Model/Homes.vo']
 MODEL_NEEDS_IMPL = True
 SHARD = 24
-SIZES = {'quick': 360, 'thorough': 3600, 'search': 1500}
+SIZES = {'quick': 900, 'thorough': 6000, 'search': 1500}
 TRACE = 24
 RULE = ('cases: generated pragmatic problems (3-10 jobs: deliveries, pickups, services, shipments, 2-pickup and 2-delivery '
         'multi jobs; 1-2 places / windows, tags; 1-3 vehicle types x 1-2 ids x 1-2 shifts, open and closed ends; capacity, '
@@ -196,5 +196,6 @@ MANIFEST_TEXT = ('Machine-checked proof (Coq, no axioms) plus a verified end-to-
                  'matrix of configurations; the bookkeeping invariant is evaluated on real SolutionContext dumps taken after every insertion.')
 MANIFEST_NOTE = ('Trusted: Coq kernel + vm_compute; JSON->Gallina rendering (cross-checked by a Python twin); harness. Fragment: no breaks, '
                  'reloads, recharges, relations, clustering. Operator choice is an oracle; ruin steps are validated end-to-end only. '
-                 'Known finding: a vehicle with maxDuration can be returned with an empty tour (fixed cost charged).')
+                 'Findings made with it (empty tour for a maxDuration vehicle; writer panic on its f64::MAX departure) are fixed '
+                 'in /repo and kept as regression cases / reverse-patch mutants.')
 MANIFEST_TECHNIQUE = 'Coq proof (checker soundness/completeness + bookkeeping invariant) + verified checker run on real solver output'
